@@ -140,15 +140,26 @@ fn main_c11(tier: &str, seed: u64, replay: Option<&str>) -> i32 {
     ];
     // every configuration with ordinary lines and with over-long lines
     // every configuration with ordinary lines, with over-long lines, and with one file per hunk
+    // one OS process per memory measurement: the regex engine hands its lazily built automata
+    // from thread to thread through a pool, so in a process with other threads the thread that
+    // happens to grow such a cache is charged for it; a process with a single thread is exact
     let mem: Vec<(Option<Violation>, serde_json::Value)> = par_map(if worddiff { 0 } else { mem_cfgs.len() * 5 }, &|j| {
         let i = j / 5;
-        let long = j % 5 == 1;
-        let many = j % 5 == 2;
-        let wrap = j % 5 == 3;
-        let commits = j % 5 == 4;
-        let a = mem_cfgs[i].clone();
-        let nn = if long { mem_n / 10 } else if wrap { mem_n / 3 } else { mem_n };
-        sim::on_fresh_thread(simcore::rng::mix(seed, &[simcore::rng::tag("C11-mem"), j as u64]), move || c11::memory_check(&a, nn.max(50), seed, long, many, wrap, commits))
+        let (long, many, wrap, commits) = (j % 5 == 1, j % 5 == 2, j % 5 == 3, j % 5 == 4);
+        let nn = (if long { mem_n / 10 } else if wrap { mem_n / 3 } else { mem_n }).max(50);
+        let spec = json!({"mem_args": mem_cfgs[i], "mem_n": nn, "seed": seed, "mem_long_lines": long, "mem_many_files": many, "mem_wrap_shapes": wrap, "mem_many_commits": commits});
+        let out = std::process::Command::new(std::env::current_exe().unwrap()).args(["C11-mem", &spec.to_string()]).output();
+        match out {
+            Ok(o) if o.status.success() => {
+                let v: serde_json::Value = serde_json::from_slice(&o.stdout).unwrap_or(json!({}));
+                let viol = if v["violation"].is_null() { None } else { Some(Violation::new("M-memory", v["violation"]["signature"].as_str().unwrap_or(""), v["violation"]["message"].as_str().unwrap_or("").to_string())) };
+                (viol, v["info"].clone())
+            }
+            _ => {
+                eprintln!("HARNESS-ERROR: memory measurement process failed (variant {})", j);
+                (None, json!({"error": "process failed"}))
+            }
+        }
     });
 
     let known = load_known();
@@ -314,6 +325,14 @@ fn main() {
     let replay = args.iter().position(|a| a == "--replay").and_then(|i| args.get(i + 1)).cloned();
     let seed = verif_seed();
     let code = match args.get(1).map(|s| s.as_str()) {
+        Some("C11-mem") => {
+            // one memory measurement (oracle M), alone in this process; result as JSON on stdout
+            let v: serde_json::Value = args.get(2).and_then(|t| serde_json::from_str(t).ok()).unwrap_or(json!({}));
+            let margs: Vec<String> = serde_json::from_value(v["mem_args"].clone()).unwrap_or_default();
+            let (viol, info) = c11::memory_check(&margs, v["mem_n"].as_u64().unwrap_or(300) as usize, v["seed"].as_u64().unwrap_or(1), v["mem_long_lines"].as_bool().unwrap_or(false), v["mem_many_files"].as_bool().unwrap_or(false), v["mem_wrap_shapes"].as_bool().unwrap_or(false), v["mem_many_commits"].as_bool().unwrap_or(false));
+            println!("{}", json!({"violation": viol.map(|x| json!({"signature": x.signature, "message": x.message})), "info": info}));
+            0
+        }
         Some("hashtest") => {
             // same seed -> same HashMap iteration order; different seeds -> different orders
             let order = |seed: u64| -> String {
